@@ -234,3 +234,11 @@ Proof. exact NestEqual.nest_fix_premises_hold. Qed.
 Print Assumptions C02_nest_fix_value.
 Print Assumptions C02_nest_fuel_irrelevant.
 Print Assumptions C02_nest_fix_premises_hold.
+
+(* `x in snapshot(<value that is no list display>)`: whatever is written, every tested value is a member afterwards (Model/CollReplace.v) *)
+From V Require Model.CollReplace Proofs.CollReplaceProofs.
+Theorem C02_coll_replace_holds_tested :
+  forall (unm trim is_set : bool) (old tested : list Z) (f : bool) (nv : list Z),
+  CollReplace.coll_replace unm trim is_set old tested = CollReplace.Repl f nv -> forall v, In v tested -> In v nv.
+Proof. exact CollReplaceProofs.new_value_holds_tested. Qed.
+Print Assumptions C02_coll_replace_holds_tested.
